@@ -3,6 +3,7 @@ package verifworld
 import (
 	"fmt"
 	"net/netip"
+	"strings"
 	"time"
 
 	"pgregory.net/rapid"
@@ -41,10 +42,10 @@ func GenSel(rt *rapid.T, label string) Sel {
 		s["?"+k] = ""
 		return s
 	case 3:
-		s[k+"!"] = rapid.SampledFrom(labelVals).Draw(rt, label+"V")
+		s[k+"!"] = genValList(rt, label)
 		return s
 	case 4:
-		s[k+"="] = rapid.SampledFrom(labelVals).Draw(rt, label+"V")
+		s[k+"="] = genValList(rt, label)
 		return s
 	}
 	s[k] = rapid.SampledFrom(labelVals).Draw(rt, label+"V")
@@ -56,6 +57,15 @@ func GenSel(rt *rapid.T, label string) Sel {
 		}
 	}
 	return s
+}
+
+// genValList: one value, or several in an order that is not necessarily sorted ("y,x", "z,x,y").
+func genValList(rt *rapid.T, label string) string {
+	v := rapid.SampledFrom(labelVals).Draw(rt, label+"V")
+	if rapid.IntRange(0, 2).Draw(rt, label+"Multi") != 0 {
+		return v
+	}
+	return strings.Join(rapid.SampledFrom([][]string{{"y", "x"}, {"x", "y"}, {"z", "x", "y"}, {"y", "z"}}).Draw(rt, label+"Vs"), ",")
 }
 
 // GenSels draws 0..max distinct selectors.
